@@ -370,6 +370,8 @@ private:
 
         ++m_used_size;
 
+        do_ttl_sort(e);
+
         do_access(e);
     }
 
@@ -385,7 +387,30 @@ private:
         // push to the end of the ttl list
         m_ttl_list.splice(m_ttl_list.end(), m_ttl_list, e.m_ttl_position);
 
+        do_ttl_sort(e);
+
         do_access(e);
+    }
+
+    /**
+     * Moves an element that was just placed at the end of the ttl list to its sorted position.
+     * The ttl list must stay sorted by expire time since only its head is checked for expired
+     * elements.  A new expire time is normally the latest one so this is a no-op, but update_ttl()
+     * can shorten the uniform TTL and then newer elements expire before older ones.
+     */
+    auto do_ttl_sort(element& e) -> void
+    {
+        auto ttl_position = e.m_ttl_position;
+        while (ttl_position != m_ttl_list.begin() &&
+               m_elements[*std::prev(ttl_position)].m_expire_time > e.m_expire_time)
+        {
+            --ttl_position;
+        }
+
+        if (ttl_position != e.m_ttl_position)
+        {
+            m_ttl_list.splice(ttl_position, m_ttl_list, e.m_ttl_position);
+        }
     }
 
     auto do_erase(size_t element_idx) -> void
